@@ -265,7 +265,31 @@ func callArgKernel(rel, fn, callee string, idx int, leanName, params, resultTy s
 		if len(calls) != 1 || len(calls[0].Args) <= idx {
 			panic(bail{fmt.Sprintf("%s: expected one call to %s in %s with more than %d arguments, found %d", rel, callee, fn, idx, len(calls))})
 		}
-		return fmt.Sprintf("/-- generated from %s func %s: argument %d of `%s` -/\ndef %s %s : %s :=\n  %s\n", rel, fn, idx, src(calls[0]), leanName, params, resultTy, t.expr(calls[0].Args[idx]))
+		// a hoisted argument (`max := int64(root.TreeSize); f(ctx, max)`) is the expression it was defined by
+		arg := calls[0].Args[idx]
+		if id, ok := arg.(*ast.Ident); ok {
+			defs := findStmts(fd, func(s ast.Stmt) bool {
+				a, ok := s.(*ast.AssignStmt)
+				if !ok || len(a.Lhs) != len(a.Rhs) {
+					return false
+				}
+				for _, l := range a.Lhs {
+					if src(l) == id.Name {
+						return true
+					}
+				}
+				return false
+			})
+			if len(defs) == 1 {
+				a := defs[0].(*ast.AssignStmt)
+				for i, l := range a.Lhs {
+					if src(l) == id.Name {
+						arg = a.Rhs[i]
+					}
+				}
+			}
+		}
+		return fmt.Sprintf("/-- generated from %s func %s: argument %d of `%s` -/\ndef %s %s : %s :=\n  %s\n", rel, fn, idx, src(calls[0]), leanName, params, resultTy, t.expr(arg))
 	}
 }
 
@@ -333,66 +357,90 @@ func containsBranch(list []ast.Stmt) bool {
 //     "pg" (pgconn.ParseConfig(whole string)); the default case returns an error.
 func connGuardFacts(rel string) func() string {
 	return func() string {
-		fd := mustFunc(rel, "ValidateLogConfig")
-		// the block that declares conn
-		var block []ast.Stmt
-		ast.Inspect(fd.Body, func(n ast.Node) bool {
-			var list []ast.Stmt
-			switch x := n.(type) {
-			case *ast.BlockStmt:
-				list = x.List
-			case *ast.CaseClause:
-				list = x.Body
+		ic := intConsts(rel)
+		sc := stringConsts(rel)
+		lit := func(e ast.Expr) string { // a literal or a named constant
+			if b, ok := e.(*ast.BasicLit); ok {
+				return b.Value
 			}
-			for _, st := range list {
-				if a, ok := st.(*ast.AssignStmt); ok && len(a.Lhs) == 1 && src(a.Lhs[0]) == "conn" && strings.HasPrefix(src(a.Rhs[0]), "strings.Split(cfg.CtfeStorageConnectionString, \"://\")") {
-					block = list
+			if id, ok := e.(*ast.Ident); ok {
+				if v, ok := ic[id.Name]; ok {
+					return v
+				}
+				if v, ok := sc[id.Name]; ok {
+					return strconv.Quote(v)
 				}
 			}
-			return true
-		})
+			return ""
+		}
+		// the block (in ValidateLogConfig or a helper it calls) that splits a string on "://"
+		var block []ast.Stmt
+		var fnBody *ast.BlockStmt
+		splitVar, whole := "", ""
+		for _, fd := range funcsReachable(rel, "ValidateLogConfig") {
+			ast.Inspect(fd.Body, func(n ast.Node) bool {
+				var list []ast.Stmt
+				switch x := n.(type) {
+				case *ast.BlockStmt:
+					list = x.List
+				case *ast.CaseClause:
+					list = x.Body
+				}
+				for _, st := range list {
+					a, ok := st.(*ast.AssignStmt)
+					if !ok || len(a.Lhs) != 1 || len(a.Rhs) != 1 || callName(a.Rhs[0]) != "strings.Split" {
+						continue
+					}
+					c := a.Rhs[0].(*ast.CallExpr)
+					if len(c.Args) == 2 && lit(c.Args[1]) == `"://"` {
+						if block != nil {
+							failf(st, "a second split on \"://\"")
+						}
+						block, fnBody, splitVar, whole = list, fd.Body, src(a.Lhs[0]), norm(src(c.Args[0]))
+					}
+				}
+				return true
+			})
+		}
 		if block == nil {
-			panic(bail{rel + ": `conn := strings.Split(cfg.CtfeStorageConnectionString, \"://\")` not found in ValidateLogConfig"})
+			panic(bail{rel + ": no `x := strings.Split(<connection string>, \"://\")` in ValidateLogConfig or a helper it calls"})
 		}
 		guardAt, declAt := -1, -1
 		var guard *ast.IfStmt
 		for i, st := range block {
-			if a, ok := st.(*ast.AssignStmt); ok && len(a.Lhs) == 1 && src(a.Lhs[0]) == "conn" {
+			if a, ok := st.(*ast.AssignStmt); ok && len(a.Lhs) == 1 && src(a.Lhs[0]) == splitVar && callName(a.Rhs[0]) == "strings.Split" {
 				declAt = i
 			}
-			if is, ok := st.(*ast.IfStmt); ok && is.Init == nil && strings.Contains(src(is.Cond), "len(conn)") && guardAt < 0 {
-				if !hasReturn(is.Body.List) || is.Else != nil {
-					failf(is, "the len(conn) guard does not return")
+			if is, ok := st.(*ast.IfStmt); ok && is.Init == nil && strings.Contains(norm(src(is.Cond)), "len("+splitVar+")") && guardAt < 0 {
+				if !endsInErrReturn(is.Body.List) || is.Else != nil {
+					failf(is, "the length guard does not return an error")
 				}
 				guardAt, guard = i, is
 			}
 		}
 		if guard == nil || guardAt != declAt+1 {
-			panic(bail{rel + ": no `if len(conn) … { return … }` directly after the split"})
+			panic(bail{rel + ": no `if len(" + splitVar + ") … { return … }` directly after the split"})
 		}
-		t := &tr{sp: Spec{Kind: "i64", Repl: map[string]string{"len(conn)": "nParts"}}}
+		t := &tr{sp: Spec{Kind: "i64", Repl: withConsts(rel, map[string]string{"len(" + splitVar + ")": "nParts"})}}
 		cond := t.expr(guard.Cond)
-		// indices
 		guarded := true
 		nIdx := 0
 		for i, st := range block {
 			ast.Inspect(st, func(n ast.Node) bool {
 				ix, ok := n.(*ast.IndexExpr)
-				if !ok || src(ix.X) != "conn" {
+				if !ok || src(ix.X) != splitVar {
 					return true
 				}
 				nIdx++
-				lit, ok := ix.Index.(*ast.BasicLit)
-				if i <= guardAt || !ok || (lit.Value != "0" && lit.Value != "1") {
+				if v := lit(ix.Index); i <= guardAt || (v != "0" && v != "1") {
 					guarded = false
 				}
 				return true
 			})
 		}
-		// conn must not escape the block
 		uses := 0
-		ast.Inspect(fd.Body, func(n ast.Node) bool {
-			if ix, ok := n.(*ast.IndexExpr); ok && src(ix.X) == "conn" {
+		ast.Inspect(fnBody, func(n ast.Node) bool {
+			if ix, ok := n.(*ast.IndexExpr); ok && src(ix.X) == splitVar {
 				uses++
 			}
 			return true
@@ -400,12 +448,11 @@ func connGuardFacts(rel string) func() string {
 		if uses != nIdx {
 			guarded = false
 		}
-		// the scheme switch
 		var rows []string
 		nsw := 0
 		for _, st := range block {
 			sw, ok := st.(*ast.SwitchStmt)
-			if !ok || sw.Tag == nil || src(sw.Tag) != "conn[0]" {
+			if !ok || sw.Tag == nil || norm(src(sw.Tag)) != splitVar+"[0]" {
 				continue
 			}
 			nsw++
@@ -414,30 +461,43 @@ func connGuardFacts(rel string) func() string {
 				cc := c.(*ast.CaseClause)
 				if cc.List == nil {
 					hasDefault = true
-					if len(cc.Body) != 1 || !hasReturn(cc.Body) {
+					if !endsInErrReturn(cc.Body) {
 						failf(cc, "default scheme case does not return an error")
 					}
 					continue
 				}
-				body := src(&ast.BlockStmt{List: cc.Body})
 				parser := ""
-				switch {
-				case strings.Contains(body, "mysql.ParseDSN(conn[1])"):
-					parser = "mysql"
-				case strings.Contains(body, "pgconn.ParseConfig(cfg.CtfeStorageConnectionString)"):
-					parser = "pg"
-				default:
-					failf(cc, "unrecognised scheme case body")
+				nerr := 0
+				for _, b := range cc.Body {
+					ast.Inspect(b, func(n ast.Node) bool {
+						switch y := n.(type) {
+						case *ast.CallExpr:
+							switch src(y.Fun) {
+							case "mysql.ParseDSN":
+								if len(y.Args) == 1 && norm(src(y.Args[0])) == splitVar+"[1]" {
+									parser = "mysql"
+								}
+							case "pgconn.ParseConfig":
+								if len(y.Args) == 1 && norm(src(y.Args[0])) == whole {
+									parser = "pg"
+								}
+							}
+						case *ast.IfStmt:
+							if norm(src(y.Cond)) == "err!=nil" && endsInErrReturn(y.Body.List) {
+								nerr++
+							}
+						}
+						return true
+					})
 				}
-				if !strings.Contains(body, "err != nil { return nil, ") {
-					failf(cc, "scheme case does not return the parser's error")
+				if parser == "" || nerr == 0 {
+					failf(cc, "unrecognised scheme case (parser call on the expected argument + error return)")
 				}
 				for _, e := range cc.List {
-					lit, ok := e.(*ast.BasicLit)
-					if !ok {
-						failf(e, "scheme is not a string literal")
+					v, err := strconv.Unquote(lit(e))
+					if err != nil {
+						failf(e, "scheme is not a string constant")
 					}
-					v, _ := strconv.Unquote(lit.Value)
 					var bs []string
 					for _, b := range []byte(v) {
 						bs = append(bs, strconv.Itoa(int(b)))
@@ -450,9 +510,9 @@ func connGuardFacts(rel string) func() string {
 			}
 		}
 		if nsw != 1 {
-			panic(bail{fmt.Sprintf("%s: expected one `switch conn[0]`, found %d", rel, nsw)})
+			panic(bail{fmt.Sprintf("%s: expected one switch on element 0 of the split, found %d", rel, nsw)})
 		}
-		return fmt.Sprintf("/-- generated from %s func ValidateLogConfig: `if %s { return … }` directly after `conn := strings.Split(…, \"://\")` -/\ndef cfgConnPartsBad (nParts : Int) : Bool :=\n  %s\n/-- generated: every `conn[i]` (%d of them) comes after that guard in the same block, with index 0 or 1 -/\ndef connIndexGuarded : Bool := %v\n/-- generated: `switch conn[0]` — (scheme bytes, parser: \"mysql\" = mysql.ParseDSN(conn[1]), \"pg\" = pgconn.ParseConfig(whole string)); default: error -/\ndef connSchemes : List (List UInt8 × String) :=\n  [%s]\n",
+		return fmt.Sprintf("/-- generated from %s (ValidateLogConfig or a helper it calls): `if %s { return … }` directly after the split of the connection string on \"://\" -/\ndef cfgConnPartsBad (nParts : Int) : Bool :=\n  %s\n/-- generated: every index into the split (%d of them) comes after that guard in the same block, with index 0 or 1 -/\ndef connIndexGuarded : Bool := %v\n/-- generated: the switch on element 0 — (scheme bytes, parser: \"mysql\" = mysql.ParseDSN(element 1), \"pg\" = pgconn.ParseConfig(whole string)); default: error -/\ndef connSchemes : List (List UInt8 × String) :=\n  [%s]\n",
 			rel, src(guard.Cond), cond, nIdx, guarded, strings.Join(rows, ", "))
 	}
 }
@@ -487,29 +547,374 @@ func ekuLoopFact(rel string) func() string {
 		fd := mustFunc(rel, "ValidateLogConfig")
 		ss := findStmts(fd, func(s ast.Stmt) bool {
 			rs, ok := s.(*ast.RangeStmt)
-			return ok && src(rs.X) == "cfg.ExtKeyUsages"
+			return ok && strings.HasSuffix(src(rs.X), ".ExtKeyUsages")
 		})
 		if len(ss) != 1 {
-			panic(bail{fmt.Sprintf("%s: expected one loop over cfg.ExtKeyUsages, found %d", rel, len(ss))})
+			panic(bail{fmt.Sprintf("%s: expected one loop over ….ExtKeyUsages, found %d", rel, len(ss))})
 		}
 		rs := ss[0].(*ast.RangeStmt)
 		every := !containsBranch(rs.Body.List)
-		rejects := false
-		for _, st := range rs.Body.List {
-			is, ok := st.(*ast.IfStmt)
-			if !ok || is.Init == nil || !strings.Contains(src(is.Init), "stringToKeyUsage["+src(rs.Value)+"]") || src(is.Cond) != "ok" {
-				continue
+		// any return inside the loop must be a rejection (an early `return …, nil` would skip the remaining names)
+		ast.Inspect(rs.Body, func(n ast.Node) bool {
+			if _, ok := n.(*ast.FuncLit); ok {
+				return false
 			}
-			if eb, ok := is.Else.(*ast.BlockStmt); ok && len(eb.List) == 1 && hasReturn(eb.List) {
-				if r, ok := eb.List[0].(*ast.ReturnStmt); ok && len(r.Results) == 2 && src(r.Results[0]) == "nil" && src(r.Results[1]) != "nil" {
+			if r, ok := n.(*ast.ReturnStmt); ok && (len(r.Results) == 0 || src(r.Results[len(r.Results)-1]) == "nil") {
+				every = false
+			}
+			return true
+		})
+		// the name is looked up in stringToKeyUsage and a miss is rejected: `if v, ok := m[name]; ok {…} else { return …, err }`
+		// or `v, ok := m[name]; if !ok { return …, err }`
+		rejects := false
+		okVar := ""
+		lookup := "stringToKeyUsage[" + src(rs.Value) + "]"
+		for _, st := range rs.Body.List {
+			switch x := st.(type) {
+			case *ast.AssignStmt:
+				if len(x.Lhs) == 2 && len(x.Rhs) == 1 && norm(src(x.Rhs[0])) == lookup {
+					okVar = src(x.Lhs[1])
+				}
+			case *ast.IfStmt:
+				if as, ok := x.Init.(*ast.AssignStmt); ok && len(as.Lhs) == 2 && len(as.Rhs) == 1 && norm(src(as.Rhs[0])) == lookup {
+					ov := src(as.Lhs[1])
+					if eb, ok := x.Else.(*ast.BlockStmt); ok && src(x.Cond) == ov && endsInErrReturn(eb.List) {
+						rejects = true
+					}
+					if src(x.Cond) == "!"+ov && endsInErrReturn(x.Body.List) {
+						rejects = true
+					}
+				}
+				if okVar != "" && x.Init == nil && src(x.Cond) == "!"+okVar && endsInErrReturn(x.Body.List) {
 					rejects = true
 				}
-			}
-			if hasReturn(is.Body.List) {
-				every = false // a return in the known-name branch would end the loop early
+				if okVar != "" && x.Init == nil && src(x.Cond) == okVar {
+					if eb, ok := x.Else.(*ast.BlockStmt); ok && endsInErrReturn(eb.List) {
+						rejects = true
+					}
+				}
 			}
 		}
-		return fmt.Sprintf("/-- generated from %s func ValidateLogConfig, loop over cfg.ExtKeyUsages: no break / continue / early return for a known\nname (every name is looked at) -/\ndef ekuLoopChecksEveryName : Bool := %v\n/-- generated: a name missing from stringToKeyUsage returns an error -/\ndef ekuLoopRejectsUnknown : Bool := %v\n", rel, every, rejects)
+		return fmt.Sprintf("/-- generated from %s func ValidateLogConfig, loop over the configured EKU names: no break / continue / early successful\nreturn (every name is looked at) -/\ndef ekuLoopChecksEveryName : Bool := %v\n/-- generated: a name missing from stringToKeyUsage returns an error -/\ndef ekuLoopRejectsUnknown : Bool := %v\n", rel, every, rejects)
+	}
+}
+
+// ---- units that survive harmless rewrites (robustness round) -----------------------------------------------------------
+
+// intConsts: package-level integer constants of a file (name -> literal).
+func intConsts(rel string) map[string]string {
+	out := map[string]string{}
+	for _, d := range parseFile(rp(rel)).Decls {
+		gd, ok := d.(*ast.GenDecl)
+		if !ok || gd.Tok != token.CONST {
+			continue
+		}
+		for _, sp := range gd.Specs {
+			vs := sp.(*ast.ValueSpec)
+			for i, n := range vs.Names {
+				if i < len(vs.Values) {
+					if b, ok := vs.Values[i].(*ast.BasicLit); ok && b.Kind == token.INT {
+						out[n.Name] = b.Value
+					}
+				}
+			}
+		}
+	}
+	return out
+}
+
+// withConsts returns Repl extended by the integer / string constants of the file (a named constant reads as its literal).
+func withConsts(rel string, repl map[string]string) map[string]string {
+	out := map[string]string{}
+	for k, v := range repl {
+		out[k] = v
+	}
+	for k, v := range intConsts(rel) {
+		if _, ok := out[k]; !ok {
+			out[k] = "(" + v + " : Int)"
+		}
+	}
+	return out
+}
+
+// funcsReachable: fn and the same-file helpers it calls (one level), fn first.
+func funcsReachable(rel, fn string) []*ast.FuncDecl {
+	f := parseFile(rp(rel))
+	fd := mustFunc(rel, fn)
+	out := []*ast.FuncDecl{fd}
+	seen := map[string]bool{fd.Name.Name: true}
+	ast.Inspect(fd.Body, func(n ast.Node) bool {
+		if c, ok := n.(*ast.CallExpr); ok {
+			if id, ok := c.Fun.(*ast.Ident); ok && !seen[id.Name] {
+				if h := findFunc(f, id.Name); h != nil && h.Body != nil {
+					seen[id.Name] = true
+					out = append(out, h)
+				}
+			}
+		}
+		return true
+	})
+	return out
+}
+
+// endsInErrReturn: the block's last statement returns with a non-nil last result.
+func endsInErrReturn(list []ast.Stmt) bool {
+	if len(list) == 0 {
+		return false
+	}
+	r, ok := list[len(list)-1].(*ast.ReturnStmt)
+	return ok && len(r.Results) > 0 && src(r.Results[len(r.Results)-1]) != "nil"
+}
+
+// rejectCondsKernel: the disjunction of every rejecting condition of fn that mentions one of the markers — whether the code
+// writes them as cases of a tagless switch or as a sequence of `if c { return …, err }` (any order of writing gives the same
+// Boolean). At least `atLeast` conditions must be found.
+func rejectCondsKernel(rel, fn string, markers []string, atLeast int, leanName, params string, sp Spec) func() string {
+	return func() string {
+		fd := mustFunc(rel, fn)
+		sp.Canon = true
+		t := &tr{sp: sp, file: parseFile(rp(rel))}
+		t.prepare(fd)
+		mentions := func(e ast.Expr) bool {
+			c := norm(src(t.subst(e)))
+			for _, m := range markers {
+				if strings.Contains(c, norm(m)) {
+					return true
+				}
+			}
+			return false
+		}
+		var conds, srcs []string
+		ast.Inspect(fd.Body, func(n ast.Node) bool {
+			switch x := n.(type) {
+			case *ast.FuncLit:
+				return false
+			case *ast.SwitchStmt:
+				if x.Tag != nil || x.Init != nil {
+					return true
+				}
+				for _, c := range x.Body.List {
+					cc := c.(*ast.CaseClause)
+					for _, e := range cc.List {
+						if mentions(e) {
+							if !endsInErrReturn(cc.Body) {
+								failf(cc, "a case on %v does not return an error", markers)
+							}
+							t.aliasesOnPathTo(x)
+							conds = append(conds, t.expr(e))
+							srcs = append(srcs, src(e))
+						}
+					}
+				}
+			case *ast.IfStmt:
+				if x.Init == nil && mentions(x.Cond) {
+					if !endsInErrReturn(x.Body.List) || x.Else != nil {
+						failf(x, "an `if` on %v is not a plain rejection", markers)
+					}
+					t.aliasesOnPathTo(x)
+					conds = append(conds, t.expr(x.Cond))
+					srcs = append(srcs, src(x.Cond))
+				}
+			}
+			return true
+		})
+		if len(conds) < atLeast {
+			panic(bail{fmt.Sprintf("%s: expected at least %d rejecting conditions on %v in %s, found %d", rel, atLeast, markers, fn, len(conds))})
+		}
+		return fmt.Sprintf("/-- generated from %s func %s: every rejecting condition on %v (switch cases or `if`s), as a disjunction: `%s` -/\ndef %s %s : Bool :=\n  %s\n",
+			rel, fn, markers, strings.Join(srcs, "` | `"), leanName, params, "("+strings.Join(conds, " || ")+")")
+	}
+}
+
+// windowCondKernel: the rejecting `if` of ValidateLogConfig that compares the two NotAfter bounds: a conjunction of
+// `<…NotAfterStart> != nil`, `<…NotAfterLimit> != nil` (the proto fields or the parsed pointers: one is set iff the other is)
+// and `<…NotAfterLimit>.Before(<…NotAfterStart>)`, in any order and whatever the locals are called.
+func windowCondKernel(rel, fn, leanName string) func() string {
+	return func() string {
+		fd := mustFunc(rel, fn)
+		t := &tr{sp: Spec{Kind: "i64", Canon: true}, file: parseFile(rp(rel))}
+		t.prepare(fd)
+		var hit *ast.IfStmt
+		n := 0
+		for _, st := range findStmts(fd, func(s ast.Stmt) bool {
+			i, ok := s.(*ast.IfStmt)
+			return ok && strings.Contains(src(i.Cond), ".Before(") && strings.Contains(src(i.Cond), "NotAfter")
+		}) {
+			hit = st.(*ast.IfStmt)
+			n++
+		}
+		if n != 1 {
+			panic(bail{fmt.Sprintf("%s: expected one `if` comparing the NotAfter bounds with Before in %s, found %d", rel, fn, n)})
+		}
+		if !endsInErrReturn(hit.Body.List) || hit.Else != nil || hit.Init != nil {
+			failf(hit, "the NotAfter comparison is not a plain rejection")
+		}
+		t.aliasesOnPathTo(hit)
+		which := func(e ast.Expr) string {
+			c := norm(src(t.subst(e)))
+			c = strings.TrimSuffix(strings.TrimPrefix(strings.TrimPrefix(c, "(*"), "*"), ")")
+			switch {
+			case strings.HasSuffix(c, "NotAfterStart"):
+				return "start"
+			case strings.HasSuffix(c, "NotAfterLimit"):
+				return "limit"
+			}
+			return ""
+		}
+		var conj func(e ast.Expr) string
+		conj = func(e ast.Expr) string {
+			switch x := e.(type) {
+			case *ast.ParenExpr:
+				return conj(x.X)
+			case *ast.BinaryExpr:
+				if x.Op == token.LAND {
+					return "(" + conj(x.X) + " && " + conj(x.Y) + ")"
+				}
+				if x.Op == token.NEQ && src(x.Y) == "nil" {
+					switch which(x.X) {
+					case "start":
+						return "startSet"
+					case "limit":
+						return "limitSet"
+					}
+				}
+			case *ast.CallExpr:
+				if sel, ok := x.Fun.(*ast.SelectorExpr); ok && len(x.Args) == 1 {
+					a, b := which(sel.X), which(x.Args[0])
+					vn := map[string]string{"start": "start_", "limit": "limit_"}
+					if a != "" && b != "" {
+						switch sel.Sel.Name {
+						case "Before":
+							return "(decide (" + vn[a] + " < " + vn[b] + "))"
+						case "After":
+							return "(decide (" + vn[a] + " > " + vn[b] + "))"
+						}
+					}
+				}
+			}
+			failf(e, "unsupported operand of the NotAfter comparison: %s", src(e))
+			return ""
+		}
+		return fmt.Sprintf("/-- generated from %s func %s: `if %s` (operands named by the field they end in) -/\ndef %s (startSet limitSet : Bool) (start_ limit_ : Int) : Bool :=\n  %s\n",
+			rel, fn, src(hit.Cond), leanName, conj(hit.Cond))
+	}
+}
+
+// handlerSetKernel: the set of handler paths `Handlers` builds, as a function of the two configuration bits: the keys of the
+// PathHandlers literal, plus keys assigned (`ph[prefix+ct.X] = …`) and minus keys deleted (`delete(ph, prefix+ct.X)`) under a
+// top-level `if` on those bits — either way of writing "no submission endpoints for read-only logs and mirrors".
+func handlerSetKernel(rel, typesRel string, sp Spec) func() string {
+	return func() string {
+		fd := mustFunc(rel, "logInfo.Handlers")
+		consts := stringConsts(typesRel)
+		sp.Canon = true
+		t := &tr{sp: sp, file: parseFile(rp(rel))}
+		t.prepare(fd)
+		resolve := func(e ast.Expr) string {
+			b, ok := e.(*ast.BinaryExpr)
+			if !ok || b.Op != token.ADD {
+				failf(e, "handler key is not `<prefix> + ct.<Path>`: %s", src(e))
+			}
+			sel, ok := b.Y.(*ast.SelectorExpr)
+			if !ok || src(sel.X) != "ct" {
+				failf(e, "handler key is not `<prefix> + ct.<Path>`: %s", src(e))
+			}
+			v, ok := consts[sel.Sel.Name]
+			if !ok {
+				failf(e, "constant ct.%s not found in %s", sel.Sel.Name, typesRel)
+			}
+			return v
+		}
+		var base []string
+		mapVar := ""
+		var terms []string // Lean: how the base list is modified, in source order
+		for _, st := range fd.Body.List {
+			switch x := st.(type) {
+			case *ast.AssignStmt:
+				if len(x.Rhs) == 1 {
+					if cl, ok := x.Rhs[0].(*ast.CompositeLit); ok && src(cl.Type) == "PathHandlers" {
+						if mapVar != "" {
+							failf(x, "two PathHandlers literals")
+						}
+						mapVar = src(x.Lhs[0])
+						for _, el := range cl.Elts {
+							kv, ok := el.(*ast.KeyValueExpr)
+							if !ok {
+								failf(el, "PathHandlers element without key")
+							}
+							base = append(base, resolve(kv.Key))
+						}
+					}
+				}
+			case *ast.IfStmt:
+				if mapVar == "" {
+					continue
+				}
+				var add, del []string
+				other := false
+				for _, b := range x.Body.List {
+					switch y := b.(type) {
+					case *ast.ExprStmt:
+						if c, ok := y.X.(*ast.CallExpr); ok && src(c.Fun) == "delete" && len(c.Args) == 2 && src(c.Args[0]) == mapVar {
+							del = append(del, resolve(c.Args[1]))
+							continue
+						}
+						other = true
+					case *ast.AssignStmt:
+						if ix, ok := y.Lhs[0].(*ast.IndexExpr); ok && len(y.Lhs) == 1 && src(ix.X) == mapVar {
+							add = append(add, resolve(ix.Index))
+							continue
+						}
+						other = true
+					default:
+						other = true
+					}
+				}
+				if len(add)+len(del) == 0 {
+					continue
+				}
+				if other || x.Else != nil {
+					failf(x, "the conditional part of Handlers does more than adding / deleting handlers")
+				}
+				t.aliasesOnPathTo(x)
+				t.aliasIfInit(x)
+				c := t.expr(x.Cond)
+				if len(add) > 0 {
+					terms = append(terms, fmt.Sprintf("fun l => if %s then l ++ %s else l", c, leanStrList(add)))
+				}
+				if len(del) > 0 {
+					terms = append(terms, fmt.Sprintf("fun l => if %s then l.filter (fun p => !(%s).contains p) else l", c, leanStrList(del)))
+				}
+			}
+		}
+		// no other mutation of the map anywhere
+		n := 0
+		ast.Inspect(fd.Body, func(nd ast.Node) bool {
+			switch y := nd.(type) {
+			case *ast.CallExpr:
+				if src(y.Fun) == "delete" {
+					n++
+				}
+			case *ast.AssignStmt:
+				if ix, ok := y.Lhs[0].(*ast.IndexExpr); ok && src(ix.X) == mapVar {
+					n++
+				}
+			}
+			return true
+		})
+		if mapVar == "" {
+			panic(bail{rel + ": no PathHandlers literal in Handlers"})
+		}
+		body := leanStrList(base)
+		cnt := 0
+		for _, tm := range terms {
+			body = "(" + tm + ") (" + body + ")"
+			cnt += strings.Count(tm, "\"/ct/")
+		}
+		if n != cnt {
+			panic(bail{fmt.Sprintf("%s: Handlers changes the handler map outside a top-level `if` (%d changes, %d understood)", rel, n, cnt)})
+		}
+		return fmt.Sprintf("/-- generated from %s func logInfo.Handlers: the paths served, from the PathHandlers literal and the conditional additions /\ndeletions that follow it (path constants from %s) -/\ndef handlerPathsFor (isReadonly isMirror : Bool) : List String :=\n  %s\n", rel, typesRel, body)
 	}
 }
 
@@ -522,27 +927,24 @@ func init() {
 		{"storageBackendTrillian", constKernel(pb, "LogConfig_ISSUANCE_CHAIN_STORAGE_BACKEND_TRILLIAN_GRPC", "storageBackendTrillian", intLit)},
 		{"storageBackendCtfe", constKernel(pb, "LogConfig_ISSUANCE_CHAIN_STORAGE_BACKEND_CTFE", "storageBackendCtfe", intLit)},
 		{"cfgEmptyLogId", condKernel(c, "ValidateLogConfig", []string{"cfg.LogId"}, "cfgEmptyLogId", "(logId_ : Int)",
-			Spec{Kind: "i64", Repl: map[string]string{"cfg.LogId": "logId_"}})},
+			Spec{Kind: "i64", Canon: true, ParamNames: []string{"cfg"}, Repl: map[string]string{"cfg.LogId": "logId_"}})},
 		{"cfgRejectsAll", condKernel(c, "ValidateLogConfig", []string{"cfg.RejectExpired", "cfg.RejectUnexpired"}, "cfgRejectsAll", "(rejectExpired rejectUnexpired : Bool)",
-			Spec{Kind: "i64", Repl: map[string]string{"cfg.RejectExpired": "rejectExpired", "cfg.RejectUnexpired": "rejectUnexpired"}})},
-		{"cfgLimitBeforeStart", condKernel(c, "ValidateLogConfig", []string{"start != nil", "limit != nil"}, "cfgLimitBeforeStart", "(startSet limitSet : Bool) (start_ limit_ : Int)",
-			Spec{Kind: "i64", Repl: map[string]string{"start != nil": "startSet", "limit != nil": "limitSet",
-				"(*vCfg.NotAfterLimit)": "limit_", "*vCfg.NotAfterLimit": "limit_", "(*vCfg.NotAfterStart)": "start_", "*vCfg.NotAfterStart": "start_"}})},
-		{"cfgMergeDelayBad", errSwitchKernel(c, "ValidateLogConfig", []string{"MaxMergeDelaySec", "ExpectedMergeDelaySec"}, "cfgMergeDelayBad", "(max_ exp_ : Int)",
-			Spec{Kind: "i64", Repl: map[string]string{"cfg.MaxMergeDelaySec": "max_", "cfg.ExpectedMergeDelaySec": "exp_"}})},
+			Spec{Kind: "i64", Canon: true, ParamNames: []string{"cfg"}, Repl: map[string]string{"cfg.RejectExpired": "rejectExpired", "cfg.RejectUnexpired": "rejectUnexpired"}})},
+		{"cfgLimitBeforeStart", windowCondKernel(c, "ValidateLogConfig", "cfgLimitBeforeStart")},
+		{"cfgMergeDelayBad", rejectCondsKernel(c, "ValidateLogConfig", []string{".MaxMergeDelaySec", ".ExpectedMergeDelaySec"}, 3, "cfgMergeDelayBad", "(max_ exp_ : Int)",
+			Spec{Kind: "i64", ParamNames: []string{"cfg"}, Repl: map[string]string{"cfg.MaxMergeDelaySec": "max_", "cfg.ExpectedMergeDelaySec": "exp_"}})},
 		{"cfgConnMissing", condKernel(c, "ValidateLogConfig", []string{"len(cfg.CtfeStorageConnectionString)"}, "cfgConnMissing", "(connLen : Int)",
-			Spec{Kind: "i64", Repl: map[string]string{"len(cfg.CtfeStorageConnectionString)": "connLen"}})},
-		{"backendNameEmpty", condKernel(c, "BuildLogBackendMap", []string{"len(be.Name)"}, "backendNameEmpty", "(nameLen : Int)",
-			Spec{Kind: "i64", Repl: map[string]string{"len(be.Name)": "nameLen"}})},
-		{"backendSpecEmpty", condKernel(c, "BuildLogBackendMap", []string{"len(be.BackendSpec)"}, "backendSpecEmpty", "(specLen : Int)",
-			Spec{Kind: "i64", Repl: map[string]string{"len(be.BackendSpec)": "specLen"}})},
-		{"prefixEmpty", condKernel(c, "validateConfigs", []string{"len(logCfg.Prefix)"}, "prefixEmpty", "(prefixLen : Int)",
-			Spec{Kind: "i64", Repl: map[string]string{"len(logCfg.Prefix)": "prefixLen"}})},
-		{"setupNeedsRoots", condKernel(in, "setUpLogInfo", []string{"len(cfg.RootsPemFile)"}, "setupNeedsRoots", "(isMirror : Bool) (nRoots : Int)",
-			Spec{Kind: "i64", Repl: map[string]string{"cfg.IsMirror": "isMirror", "len(cfg.RootsPemFile)": "nRoots"}})},
-		{"handlersDropAdd", condKernel(h, "logInfo.Handlers", []string{"IsReadonly", "IsMirror"}, "handlersDropAdd", "(isReadonly isMirror : Bool)",
+			Spec{Kind: "i64", Canon: true, ParamNames: []string{"cfg"}, Repl: map[string]string{"len(cfg.CtfeStorageConnectionString)": "connLen"}})},
+		{"backendNameEmpty", condKernel(c, "BuildLogBackendMap", []string{"len(", ".Name)"}, "backendNameEmpty", "(nameLen : Int)",
+			Spec{Kind: "i64", Canon: true, Repl: map[string]string{"….Name)": "nameLen"}})},
+		{"backendSpecEmpty", condKernel(c, "BuildLogBackendMap", []string{"len(", ".BackendSpec)"}, "backendSpecEmpty", "(specLen : Int)",
+			Spec{Kind: "i64", Canon: true, Repl: map[string]string{"….BackendSpec)": "specLen"}})},
+		{"prefixEmpty", condKernel(c, "validateConfigs", []string{"len(", ".Prefix)"}, "prefixEmpty", "(prefixLen : Int)",
+			Spec{Kind: "i64", Canon: true, Repl: map[string]string{"….Prefix)": "prefixLen"}})},
+		{"setupNeedsRoots", condKernel(in, "setUpLogInfo", []string{"len(", ".RootsPemFile)"}, "setupNeedsRoots", "(isMirror : Bool) (nRoots : Int)",
+			Spec{Kind: "i64", Canon: true, ParamNames: []string{"ctx", "opts"}, Repl: map[string]string{"opts.Validated.Config.IsMirror": "isMirror", "cfg.IsMirror": "isMirror", "….RootsPemFile)": "nRoots"}})},
+		{"handlerPathsFor", handlerSetKernel(h, "types.go",
 			Spec{Kind: "i64", Repl: map[string]string{"li.instanceOpts.Validated.Config.IsReadonly": "isReadonly", "li.instanceOpts.Validated.Config.IsMirror": "isMirror"}})},
-		{"handlerTable", handlerTable(h, "types.go")},
 		{"sthGetterSelect", getterSelect(h, Spec{Kind: "i64", Repl: map[string]string{"vCfg.FrozenSTH != nil": "frozenSet", "cfg.IsMirror": "isMirror"}})},
 		{"mirrorMaxTreeSize", callArgKernel("trillian/ctfe/sth.go", "MirrorSTHGetter.GetSTH", "sg.st.GetMirrorSTH", 1, "mirrorMaxTreeSize", "(treeSize_ : Int)", "Int",
 			Spec{Kind: "i64", Repl: map[string]string{"currentRoot.TreeSize": "treeSize_"}})},
